@@ -661,6 +661,97 @@ def mon_C04(ops, results):
     return out
 
 
+def _json_or_none(text):
+    import json as _j
+    try:
+        return _j.loads(text)
+    except Exception:
+        return None
+
+
+def _path_get(doc, path):
+    cur = doc
+    for p in path:
+        if not isinstance(cur, dict) or p not in cur or cur[p] is None:
+            return None, False
+        cur = cur[p]
+    return cur, True
+
+
+def mon_C18(ops, results):
+    """WriteSubDoc / SubdocInsert change only the addressed property (every other property preserved), honour a supplied CAS,
+    SubdocInsert refuses an existing property and a missing document; GetSubDocRaw returns the addressed property."""
+    import json as _j
+    out = []
+    for i, name, pos, args, res, last, feeds in Trace(ops, results).steps():
+        if name not in ("wsd", "sdi", "gsd") or len(pos) < 2 or res.startswith("r=panic"):
+            continue
+        key = (pos[0], pos[1])
+        before = last.get(key)
+        if before is None:
+            continue
+        rf = res_fields(res)
+        pathstr = arg(args, "path", "")
+        if pathstr == "" or any(ch in pathstr for ch in "[]`\\"):
+            continue
+        path = pathstr.split(".")
+        body = before.get("row.v", "~")
+        doc = _json_or_none(body[1:]) if body.startswith("=") else None
+        if name == "gsd":
+            if rf.get("r") == "ok" and isinstance(doc, dict):
+                want, found = _path_get(doc, path)
+                got = _json_or_none(res.split(" v=", 1)[1]) if " v=" in res else None
+                if not found or got != want:
+                    out.append(viol("C18.get-returns-addressed-property", i, "GetSubDocRaw(%s) returned %s, document has %s" % (pathstr, got, want)))
+            continue
+        rbs, _ = following(ops, results, i)
+        after = rbs.get(key)
+        if after is None:
+            continue
+        ok = rf.get("r") == "ok"
+        if not ok:
+            if row_of(before) != row_of(after):
+                out.append(viol("C18.failed-write-changes-nothing", i, "%s failed (%s) but the document changed" % (name, res)))
+            continue
+        cas = int(arg(args, "cas", "0"))
+        cur = 0 if absent(before) else int(before.get("row.cas", "0"))
+        if cas != 0 and cas != cur:
+            out.append(viol("C18.supplied-cas-honoured", i, "%s with CAS %d applied to version %d" % (name, cas, cur)))
+        if name == "sdi":
+            if not has_body(before):
+                out.append(viol("C18.insert-refuses-missing-document", i, "SubdocInsert succeeded on a missing document"))
+            elif isinstance(doc, dict):
+                _, found = _path_get(doc, path)
+                if found:
+                    out.append(viol("C18.insert-refuses-existing-property", i, "SubdocInsert succeeded although %s exists" % pathstr))
+        old = doc if isinstance(doc, dict) and has_body(before) else {}
+        nb = after.get("row.v", "~")
+        new = _json_or_none(nb[1:]) if nb.startswith("=") else None
+        if not isinstance(new, dict):
+            out.append(viol("C18.result-is-object", i, "after %s the body is %s" % (name, nb)))
+            continue
+        for k2 in set(old) | set(new):
+            if k2 != path[0] and old.get(k2, "<absent>") != new.get(k2, "<absent>"):
+                out.append(viol("C18.other-properties-preserved", i, "%s at %s changed property %s: %s -> %s" % (name, pathstr, k2, old.get(k2, "<absent>"), new.get(k2, "<absent>"))))
+        # siblings along the path
+        o, n2 = old, new
+        for depth, p in enumerate(path[:-1]):
+            o, n2 = (o.get(p) if isinstance(o, dict) else None), (n2.get(p) if isinstance(n2, dict) else None)
+            if isinstance(o, dict) and isinstance(n2, dict):
+                for k2 in set(o) | set(n2):
+                    if k2 != path[depth + 1] and o.get(k2, "<absent>") != n2.get(k2, "<absent>"):
+                        out.append(viol("C18.other-properties-preserved", i, "%s at %s changed sibling %s" % (name, pathstr, k2)))
+        v = arg(args, "v")
+        val = _json_or_none(v) if v not in (None, "") else None
+        got, found = _path_get(new, path)
+        if val is None:
+            if found:
+                out.append(viol("C18.empty-value-removes", i, "%s with an empty value left %s = %s" % (name, pathstr, got)))
+        elif not found or got != val:
+            out.append(viol("C18.addressed-property-set", i, "%s wrote %s at %s but the document has %s" % (name, v, pathstr, got)))
+    return out
+
+
 MAX_DELTA = 60 * 60 * 24 * 30
 
 
@@ -718,5 +809,5 @@ def mon_C14(ops, results):
     return out
 
 
-MONITORS = {"C14": mon_C14, "C04": mon_C04, "C01": mon_C01, "C02": mon_C02, "C05": mon_C05, "C06": mon_C06, "C07": mon_C07, "C08": mon_C08, "C09": mon_C09,
+MONITORS = {"C14": mon_C14, "C18": mon_C18, "C04": mon_C04, "C01": mon_C01, "C02": mon_C02, "C05": mon_C05, "C06": mon_C06, "C07": mon_C07, "C08": mon_C08, "C09": mon_C09,
             "C11": mon_C11, "C17": mon_C17}
